@@ -108,19 +108,49 @@ class Files:
         return p
 
 
-# --- DER built with the library's own encoders (inputs for OpenSSL)
+# --- DER for OpenSSL's input, encoded here (independent of the library's der module, so that a defect there cannot
+#     break the oracle); the only library data used is the curve's OID tuple and its order
+# OIDs as published (SEC 2, ANSI X9.62, RFC 5639), keyed by OpenSSL's curve name: independent of the library
+_OIDS = {
+    "secp112r1": (1, 3, 132, 0, 6), "secp112r2": (1, 3, 132, 0, 7), "secp128r1": (1, 3, 132, 0, 28), "secp160r1": (1, 3, 132, 0, 8),
+    "prime192v1": (1, 2, 840, 10045, 3, 1, 1), "secp224r1": (1, 3, 132, 0, 33), "prime256v1": (1, 2, 840, 10045, 3, 1, 7),
+    "secp384r1": (1, 3, 132, 0, 34), "secp521r1": (1, 3, 132, 0, 35), "secp256k1": (1, 3, 132, 0, 10),
+    "brainpoolP160r1": (1, 3, 36, 3, 3, 2, 8, 1, 1, 1), "brainpoolP192r1": (1, 3, 36, 3, 3, 2, 8, 1, 1, 3),
+    "brainpoolP224r1": (1, 3, 36, 3, 3, 2, 8, 1, 1, 5), "brainpoolP256r1": (1, 3, 36, 3, 3, 2, 8, 1, 1, 7),
+    "brainpoolP320r1": (1, 3, 36, 3, 3, 2, 8, 1, 1, 9), "brainpoolP384r1": (1, 3, 36, 3, 3, 2, 8, 1, 1, 11),
+    "brainpoolP512r1": (1, 3, 36, 3, 3, 2, 8, 1, 1, 13),
+}
+
+
+def der_oid(arcs):
+    body = bytes([40 * arcs[0] + arcs[1]])
+    for a in arcs[2:]:
+        chunk = [a & 0x7F]
+        a >>= 7
+        while a:
+            chunk.append(0x80 | (a & 0x7F))
+            a >>= 7
+        body += bytes(reversed(chunk))
+    return b"\x06" + der_len(len(body)) + body
+
+
+def der_tlv(tag, body):
+    return bytes([tag]) + der_len(len(body)) + body
+
+
+def curve_oid(cv):
+    return der_oid(_OIDS[cv.openssl_name])
+
+
 def priv_der_nopub(cv, d):
     """SEC1 ECPrivateKey WITHOUT the optional public key, so that OpenSSL has to compute d*G itself"""
-    from register_crypto_plugin.ecdsa import der, util
-    return der.encode_sequence(der.encode_integer(1), der.encode_octet_string(util.number_to_string(d, cv.order)),
-                               der.encode_constructed(0, cv.encoded_oid))
+    L = (int(cv.order).bit_length() + 7) // 8
+    return der_tlv(0x30, der_int(1) + der_tlv(0x04, int(d).to_bytes(L, "big")) + der_tlv(0xA0, curve_oid(cv)))
 
 
 def spki(cv, point_bytes):
     """SubjectPublicKeyInfo (named curve) around arbitrary point bytes"""
-    from register_crypto_plugin.ecdsa import der, keys
-    return der.encode_sequence(der.encode_sequence(keys.encoded_oid_ecPublicKey, cv.encoded_oid),
-                               der.encode_bitstring(point_bytes, 0))
+    return der_tlv(0x30, der_tlv(0x30, der_oid((1, 2, 840, 10045, 2, 1)) + curve_oid(cv)) + der_tlv(0x03, b"\x00" + bytes(point_bytes)))
 
 
 def der_int(v):
@@ -183,6 +213,8 @@ def ossl_verify(hname, pub_path, sig, msg, files, maxlen=None):
         os.unlink(sp)
     if rc == 0 and out.startswith(b"Verified OK"):
         return "accept"
+    if b"Could not read" in err or b"unable to load" in err or b"Could not find" in err:
+        return "key-unreadable"          # the public key file (library output) is not a key for OpenSSL: a rejected event
     if b"Verification failure" in out + err or b"Error verifying data" in out + err or b"Verification Failure" in out + err:
         return "reject"
     raise MachineryError("openssl dgst -verify: unexpected answer rc=%d %r %r" % (rc, out[-200:], err[-300:]))
